@@ -2,7 +2,7 @@
 # run every seeded patch against its property's quick check; print one line each (used for DESIGN.md's table)
 cd "$(dirname "$0")/.."
 EVBAK=$(mktemp -d /tmp/evbak.XXXX); cp -r evidence/. $EVBAK/    # evidence of the clean tree is put back afterwards
-for d in seeded/*/; do s=$(basename $d); p=${s%%_*}
+for d in seeded/[A-Z]*/; do s=$(basename $d); p=${s%%_*}
   git -C /repo apply /verif/seeded/$s/patch.diff || { echo "$s PATCH-FAILED"; continue; }
   ./check $p --tier quick > /tmp/sm_$s.log 2>&1; e=$?
   git -C /repo checkout -- .
